@@ -66,3 +66,25 @@ func lemmaKeyRoundTrip(buf []byte, prevKey, key string, extra uint8, i int) (k2 
 // successor - must not be refuted. A contradiction in the view would otherwise make every C02 obligation vacuous.
 func lemmaSeekModelConsistent(r *Reader, i *tableIter, key string) {
 }
+
+// lemmaRefValueRoundTrip (C01, layer 3, one-hash ref records): decoding what RefRecord.encode wrote - with the value
+// type the record reports - accepts it, consumes exactly the bytes written and returns the same update index and the
+// same hash, byte by byte (k is a lemma parameter: the clause holds for every position). Follows from the two layout
+// contracts of encode and decode in verif_contracts.go.
+func lemmaRefValueRoundTrip(r *RefRecord, buf []byte, hashSize int, k int) {
+	vAssume(r != nil && r.UpdateIndex < 1<<62 && len(r.Value) == hashSize && len(r.TargetValue) == 0 && r.Target == "")
+	vAssume((hashSize == 20 || hashSize == 32) && 0 <= k && k < hashSize)
+	n, fits := r.encode(buf, hashSize)
+	if !fits {
+		return
+	}
+	want := r.Value[k]
+	idx := r.UpdateIndex
+	var r2 RefRecord
+	m, ok := r2.decode(buf[:n], r.RefName, r.valType(), hashSize)
+	vAssert(ok, "the decoder accepts what the encoder wrote")
+	vAssert(m == n, "it consumes exactly the bytes written")
+	vAssert(r2.UpdateIndex == idx, "same update index")
+	vAssert(r2.RefName == r.RefName, "same name")
+	vAssert(len(r2.Value) == hashSize && r2.Value[k] == want, "same hash, byte by byte")
+}
